@@ -23,7 +23,7 @@ RULE = (
     "grammar (symbolic axes only over names plainly bound by an earlier parameter), shapes derived against an evolving model "
     "context and then 0-2 single-axis changes applied to a non-first argument (cross-argument conflicts); every case is executed for the identity order and up to 2 other valid permutations x "
     "{positional, keyword, mixed} x {typeguard, beartype} x {jaxtyped(typechecker=..), old jaxtyped(checker(f))} plus a jaxtyped "
-    "dataclass per checker. Non-trivial = >=2 parameters sharing a name or *name AND (unsatisfiable only through a cross-argument "
+    "dataclass per checker (flat, and split into a jaxtyped base class and a jaxtyped subclass). Non-trivial = >=2 parameters sharing a name or *name AND (unsatisfiable only through a cross-argument "
     "conflict -- every argument alone matches -- or satisfiable with a '#'/variadic name shared between arguments); distinct by "
     "(specs, shapes)."
 )
@@ -110,8 +110,11 @@ def check_case(ctx, case, extra_orders):
     refp = dl.satisfiable([(gc.meanings_of(p), p["shape"]) for p in case["params"]])
     if refp is not None:
         for ck in CHECKERS:
-            for order in orders[:2]:
-                D = gc.build_dataclass(case, order, ck)
+            variants = [(o, None) for o in orders[:2]]
+            if len(case["params"]) >= 2:
+                variants.append((orders[0], 1 + (len(vec) % (len(case["params"]) - 1))))  # base class + subclass
+            for order, split in variants:
+                D = gc.build_dataclass(case, order, ck, split)
                 for style in ("pos", "kw"):
                     args, kwargs = gc.call_args(case, order, style)
                     try:
@@ -121,10 +124,10 @@ def check_case(ctx, case, extra_orders):
                         got = "TypeCheckError"
                     except Exception as e:
                         got = f"raise:{type(e).__name__}"
-                    vec[(tuple(order), ck, "dataclass", style)] = got
+                    vec[(tuple(order), ck, f"dataclass{'' if split is None else '-inherit' + str(split)}", style)] = got
                     if (got == "ok") != refp or (got != "ok" and got != "TypeCheckError"):
                         raise Violation("dataclass", dict(case, variant=[order, ck, "dataclass", style]),
-                                        f"dataclass __init__ {got} but reference says {'accept' if refp else 'reject'}: {[(p['name'], gc.spec_of(p), p['shape']) for p in case['params']]}")
+                                        f"dataclass{'' if split is None else ' (jaxtyped base with ' + str(split) + ' fields + jaxtyped subclass)'} __init__ {got} but reference says {'accept' if refp else 'reject'}: {[(p['name'], gc.spec_of(p), p['shape']) for p in case['params']]}")
     ctx.extra["variants_executed"] = ctx.extra.get("variants_executed", 0) + len(vec)
     ctx.note(
         [[(gc.spec_of(p), p["shape"]) for p in case["params"]], (gc.spec_of(case["ret"]), case["ret"]["shape"]) if case["ret"] else None],
